@@ -180,6 +180,14 @@ func (p *Path) callBuiltin(name string, args []Value, cc *ssa.CallCommon) Value 
 		}
 		par := c.parent
 		if par == nil {
+			if n == 0 {
+				// the non-nil pointer SliceData gave for a zero-capacity slice (it points at the array object
+				// itself): an empty slice at the end of that array
+				if _, ok := c.typ.Underlying().(*types.Array); ok {
+					return SliceV{arr: c, off: len(c.kids)}
+				}
+				return SliceV{}
+			}
 			// pointer to a lone variable: slice of length <= 1
 			if n > 1 {
 				p.disciplineEvent("unsafe.Slice beyond the object")
